@@ -115,7 +115,7 @@ func ctxParamOf(e *pw.Engine) *pw.Val {
 
 // isShardData: a map event on a shard's data map.
 func isShardData(ev *pw.Event) bool {
-	return ev.Recv != nil && (ev.Recv.Kind == pw.KField || ev.Recv.Kind == pw.KAlloc) && ev.Recv.Field != nil && ev.Recv.Field.Name() == "data" &&
+	return ev.Recv != nil && (ev.Recv.Kind == pw.KField || ev.Recv.Kind == pw.KAlloc) && ev.Recv.Field != nil && fname(ev.Recv.Field) == "data" &&
 		(ev.Kind == pw.EvMapLookup || ev.Kind == pw.EvMapInsert || ev.Kind == pw.EvMapDelete || ev.Kind == pw.EvMapIter || ev.Kind == pw.EvMapLen)
 }
 
